@@ -44,6 +44,9 @@ def c10_case_list(tier, seed, only_fn=None):
         # integer-typed bounds (a user writing lower=-10, upper=10): the preimage is not integer valued
         cases.append(dict(fn="_autoregressive_bisection_search", func="triangular", root=0.5, dim=3, tol=1e-6, max_iter=200, seed=5, lower=-10, upper=10, int_bounds=True))
         cases.append(dict(fn="_autoregressive_bisection_search", func="triangular", root=0.5, dim=1, tol=1e-8, max_iter=200, seed=6, lower=-3, upper=4, int_bounds=True))
+    if only_fn in (None, "_autoregressive_bisection_search", "AutoregressiveBisectionInverter"):
+        for tol_, scales, seed_ in ((1e-7, [1e-2, 0.2, 1.0], 11), (1e-4, [1e-3, 0.05], 12), (1e-9, [0.2, 5.0], 13)):
+            cases.append(dict(fn="AutoregressiveBisectionInverter", func="Affine", root=0.0, dim=3, tol=tol_, max_iter=200, seed=seed_, scales=scales, lower=-10.0, upper=10.0))
     if only_fn in (None, "_bisection_search"):
         for f in ("linear_steep", "cubic"):
             cases.append(dict(fn="_bisection_search", func=f, root=0.3, lower=-10, upper=10, tol=1e-7, max_iter=200, int_bounds=True))
@@ -144,6 +147,8 @@ def _leaf_grid(pid):
             fails += rt.rt_zoo_B(pid, count=cnt)
         if pid in ("C01", "C02", "C07"):
             fails += rt.rt_triangular(tier, count=cnt)
+        if pid in ("C01", "C07"):
+            fails += rt.rt_simple_fwd(tier, count=cnt)
         cnt = [sum(cnt)]
         return dict(evaluations=cnt[0], distinct_nontrivial=cnt[0],
                     rule="real RationalQuadraticSpline (trained-like perturbed raw parameters, intervals with and without 0) at every knot / interval end / float neighbour / bin midpoint / outside point, TriangularAffine with every trainable leaf moved (C01/C02), contract B (round trips, same point, log-det vs autodiff slogdet, inverse log-det) on an object zoo of EVERY buildable bijection class incl. combinators and structured layers, and real elementwise leaf bijections (float64) x parameter sets (positive/negative/small/large scales, several max_val) x boundary-directed points (0, +-1, +-max_val, +-tanh(max_val), their float neighbours, 1e-8, 1e4); each (class, params, point) is distinct",
